@@ -35,7 +35,7 @@ MANIFEST = {
             'to their specification (an ac source of amplitude a and phase phi is the phasor a E(j phi), for EVERY function E).  '
             'Assembly, ordering, reporting, the per-kind source values and the solver contract (A x = Z for each solver method) are tied to the '
             'real code by evaluating the model inside Coq on generated netlists, over Q for the dc/Laplace kinds and over the '
-            'Gaussian rationals Q(i) for the phasor (ac) kinds.',
+            'Gaussian rationals Q(i) for the phasor (ac) kinds and the noise kinds (at omega = w0); resistive circuits (time-domain kind) are evaluated at an instant t0 > 0.',
     'note': 'Trusted: Coq kernel/vm_compute; tools/tr_stamps.py; spec coq/theory/Circuit.v (physical semantics, App. B); hand models '
             'coq/theory/MNA.v + props/C01model.v (ordering, assembly, reporting) validated by correspondence; sympy linear solve, '
             'eps-limit and node merging are modelled as oracles whose contract is checked per case, not verified; component '
@@ -222,7 +222,8 @@ def oracle(case, kd, s0):
     netlist text and textbook relations.  kd = worker dump for one kind."""
     bad = []
     kind = kd['kind']
-    is_ac = bool(kd.get('ac'))
+    is_noise = bool(kd.get('noise'))
+    is_ac = bool(kd.get('ac')) or is_noise
     if kind not in ('dc', 's', 'ivp', 'laplace', 'transient', 'time') and not is_ac:
         return bad
     V = {k: (G(v) if v is not None else None) for k, v in kd.get('Vdict', {}).items()}
@@ -231,11 +232,12 @@ def oracle(case, kd, s0):
         return bad
     if is_ac:
         try:
-            s = G(0, Fraction(kind))      # s = j omega
+            s = G(0, Fraction(case.get('w0', '2') if is_noise else kind))      # s = j omega
         except Exception:
             return bad
     else:
         s = G(Fraction(s0))
+    live_noise = []
     node_sum = {}      # node index -> sum of currents leaving the node through elements
     incomplete = set()
 
@@ -277,7 +279,15 @@ def oracle(case, kd, s0):
             leave(e['nidx'][0], cur)
             leave(e['nidx'][1], -cur)
             dv = v1 - v2
-            if ty in ('V', 'I'):
+            if ty in ('V', 'I') and is_noise:
+                nv = parse_val(toks[4]) if len(toks) > 4 and toks[3] == 'noise' else (0 if len(toks) > 3 and toks[3] != 'noise' else None)
+                got = dv if ty == 'V' else -cur
+                if nv is not None:
+                    if got != 0 and got != nv:
+                        bad.append('%s: noise source neither off nor at its netlist value (value %s, prescribed %s)' % (nm, got, nv))
+                    if got != 0:
+                        live_noise.append(nm)
+            elif ty in ('V', 'I'):
                 sv = source_value(toks, kind, is_ac, s)
                 if sv is not None:
                     if ty == 'V' and dv != sv:
@@ -376,6 +386,8 @@ def oracle(case, kd, s0):
                 bad.append('%s: transfer relation violated' % nm)
         else:
             incomplete.update(e['nidx'])
+    if is_noise and len(live_noise) > 1:
+        bad.append('more than one noise source is live in one noise analysis: %s' % ', '.join(live_noise))
     for n, tot in node_sum.items():
         if n >= 0 and n not in incomplete and tot != 0:
             bad.append('KCL violated at node index %d (sum of leaving currents %s)' % (n, tot))
@@ -393,12 +405,12 @@ def build_checks(ci, case, wres, tr, res, point_eps):
     if 'kinds' not in wres:
         return checks
     for kind, kd in wres['kinds'].items():
-        F = 'I' if kd.get('ac') else 'Q'
+        F = 'I' if (kd.get('ac') or kd.get('noise')) else 'Q'
         if kind not in KINDS and F == 'Q':
             res.count('kind_skipped_' + ('noise_or_other' if kind not in KINDS else kind))
             continue
         KN, EQ, ZERO = FIELD[F]
-        kindc = 'KAc' if F == 'I' else KINDS[kind]
+        kindc = ('KNoise' if kd.get('noise') else 'KAc') if F == 'I' else KINDS[kind]
         kt = re.sub(r'[^A-Za-z0-9]', '_', kind)
         ids = {e['name']: i for i, e in enumerate(kd['elements'])}
         raws = []
@@ -438,7 +450,7 @@ def build_checks(ci, case, wres, tr, res, point_eps):
                         res.count('source_phase_not_quarter_turn_or_symbolic_omega')
                         continue
                 try:
-                    wlit = q(str(Fraction(kind)), F) if F == 'I' else ZERO
+                    wlit = q(str(Fraction(case.get('w0', '2') if kd.get('noise') else kind)), F) if F == 'I' else ZERO
                 except Exception:
                     continue
                 slit = ('(cimul cii %s)' % wlit) if F == 'I' else q(case['s0'], F)
@@ -553,7 +565,7 @@ def cases_file(items):
 def gen_cases(rng, tier):
     n = int(os.environ.get('VERIF_NCASES', 60 if tier == 'quick' else 400))
     cases = []
-    profiles = ['s', 'ivp', 'dc', 'mixed', 'ac', 'res']
+    profiles = ['s', 'ivp', 'dc', 'mixed', 'ac', 'res', 'noise']
     for i in range(n):
         prof = profiles[i % len(profiles)]
         nl = netgen.gen_netlist(rng, prof)
@@ -746,7 +758,7 @@ def run(tier='quick', replay=None):
             ci = int(lab.split('/')[0])
             res.disagreements.append({'check': lab, 'case': cases[ci]})
         res.rule = ('random connected netlists (netgen: R/L/C tree + chords + sources + controlled sources, transformer, gyrator, '
-                    'mutual inductance, two-ports, wires, ammeters, duplicates; profiles dc/s/ivp/mixed/ac/res (ac = phasor analysis, evaluated over the Gaussian rationals; res = resistive circuits, analysed in the time domain and evaluated at an instant t0 > 0); both current-sign conventions; '
+                    'mutual inductance, two-ports, wires, ammeters, duplicates; profiles dc/s/ivp/mixed/ac/res (ac = phasor analysis, evaluated over the Gaussian rationals; res = resistive circuits, analysed in the time domain and evaluated at an instant t0 > 0; noise = one analysis per noise source, evaluated at omega = w0 over the Gaussian rationals); both current-sign conventions; '
                     '2-4 solver methods) plus a fixed corpus; non-trivial = Lcapy solved at least one analysis kind; distinct = distinct netlist text')
 
         # decide
